@@ -12,11 +12,18 @@ def prepare(prog):
     """one iteration of `for pipeline_arrival in self.batch_by_pipeline():` of the generator batch_by_arrival: the rebound locals
     are returned with the verdict, `yield e` becomes `emitted.append(e)` (see pyvc/extract.py)"""
     import ast
-    from pyvc.extract import extract_loop_body
+    from pyvc.extract import extract_loop_body, extract_block
     try:
         prepare_ticks(prog)
     except KeyError:
         pass        # run_ticks is then reported as unreachable on its own
+    try:
+        # the first top-level `if` of batch_by_arrival that yields (the statement after the loop: `if current_batch: yield current_batch`)
+        is_flush = lambda s: isinstance(s, ast.If) and any(isinstance(x, ast.Yield) for x in ast.walk(s))
+        extract_block(prog, f"{MC}:CSVWorkloadReader.batch_by_arrival", "flush_arrival", is_flush, is_flush, ["current_batch", "emitted"], "None",
+                      yields_to="emitted")
+    except KeyError:
+        pass
     return extract_loop_body(prog, f"{MC}:CSVWorkloadReader.batch_by_arrival", "group_arrival",
                              lambda n: ast.unparse(n.target) == "pipeline_arrival" and "batch_by_pipeline" in ast.unparse(n.iter),
                              ["self", "pipeline_arrival", "current_batch", "current_arrival_seconds", "emitted"],
@@ -100,6 +107,15 @@ def declare3(S: Spec):
                   ("batches-already-handed-out-stay", "all(emitted[j] is old(emitted[j]) for j in range(0, old(len(emitted))))")],
          modifies=["contents(current_batch)", "contents(emitted)"], allocates=True,
          note="extracted: one iteration of the loop of batch_by_arrival over the pipelines of batch_by_pipeline; yield -> emitted.append")
+    S.fn(f"{MC}:flush_arrival", owners=["C13"], params={"current_batch": List(PA), "emitted": List(List(PA))},
+         requires=["current_batch is not None and emitted is not None"],
+         ensures=[("the-last-open-batch-is-handed-out-too",
+                   f"implies(len(current_batch) > 0, len(emitted) == old(len(emitted)) + 1 and {LASTB} is current_batch)"),
+                  ("an-empty-trace-hands-out-nothing", "implies(len(current_batch) == 0, len(emitted) == old(len(emitted)))"),
+                  ("batches-already-handed-out-stay", "all(emitted[j] is old(emitted[j]) for j in range(0, old(len(emitted))))"),
+                  ("the-batch-itself-unchanged", "len(current_batch) == old(len(current_batch)) and all(current_batch[j] is old(current_batch[j]) for j in range(0, len(current_batch)))")],
+         modifies=["contents(emitted)"],
+         note="extracted: the statement after the loop of batch_by_arrival; yield -> emitted.append")
 
 
 def declare(S: Spec):
